@@ -1227,6 +1227,10 @@ self.storage_error("C02:searcher-unreadable", format!("after {how}: {e}"), out);
                 // the same events on the Lean machine with the bookkeeping of advance_deletes
                 // (delete_opstamp early return; C02_bookkeeping_refines says when it cannot differ)
                 ctx.report.count("impl-model:bookkeeping-compared");
+                // how many of these histories the bookkeeping theorem covers (its extra hypothesis:
+                // delete_all_documents only on a writer object that has not committed yet)
+                let book = ask(ctx, &format!("C02 book {}", render(&self.toks, &self.all_ids, false)));
+                ctx.report.count(&format!("impl-model:bookkeeping-hypothesis:{}", if book == "ok" { "holds" } else if book == "dirty" { "fails" } else { "bad-answer" }));
                 let pubd = field(&resp, "pubD").and_then(|s| crate::model::parse_nat_list(&s));
                 if pubd.as_ref() != Some(&stored) {
                     out.push(Finding { kind: "model", key: "C02:bookkeeping-model-published-mismatch".into(), what: format!("after {how}: implementation publishes {}, the Lean machine with the advance_deletes bookkeeping {:?} (the core machine agrees with the implementation)", short(&stored), field(&resp, "pubD")) });
